@@ -109,6 +109,20 @@ GroupItem(ev, name, g, rc, P, S, delta) ==
   Item(name, MRatioMilli(M(g, rc), P, TolMat(S, WPOf(ev), delta, FloorOf(ev))))
 JItem(ev, name, Jimpl, Jmodel, rowU, colU) ==
   Item(name, MRatioMilli(Jimpl, Jmodel, JTol(Jmodel, rowU, colU, FDOf(ev), FloorOf(ev))))
+\* the same with an additional working-precision term on a magnitude bound Bnd of the entries
+\* (entries of Ad_X are differences of products such as iota*v - [t]x R ...: their rounding error
+\* scales with the bound of the products, not with the possibly cancelled value)
+JItemB(ev, name, Jimpl, Jmodel, rowU, colU, Bnd) ==
+  Item(name, MRatioMilli(Jimpl, Jmodel,
+       MAdd(JTol(Jmodel, rowU, colU, FDOf(ev), FloorOf(ev)), MScale(Bnd, WPOf(ev)))))
+\* entry-wise bound of Ad_X: the definition evaluated on absolute values
+VeeAbs(g, A) == VStrict([i \in 1..DoF(g) |->
+   LET E == GenEntries(g, i)
+       RECURSIVE Acc(_)
+       Acc(S) == IF S = {} THEN Z ELSE LET e == CHOOSE x \in S : TRUE IN FAdd(FAbs(A[e[1]][e[2]]), Acc(S \ {e}))
+   IN Acc(E)])
+AdjAbs(g, X) == LET Xa == AbsR(g, X)  Xia == AbsR(g, MInv(X)) IN
+  MStrict(MFromCols([i \in 1..DoF(g) |-> VeeAbs(g, MMul(MMul(Xa, MAbs(Gen(g, i))), Xia))]))
 
 ComposeItems(ev) ==
   LET g == ev.g  a == DV(ev.a)  b == DV(ev.b)  r == DV(ev.r)
@@ -116,7 +130,7 @@ ComposeItems(ev) ==
       L == FMax(O, FMax(LinCoeffMax(g, a), LinCoeffMax(g, b)))
       U == UnitT(g, L)
   IN << GroupItem(ev, "r", g, r, MMul(Ma, Mb), MMul(AbsR(g, Ma), AbsR(g, Mb)), FAdd(Dev(g, a), Dev(g, b))) >>
-     \o (IF Has(ev, "Ja") THEN << JItem(ev, "Ja", DM(ev.Ja), AdjMat(g, MInv(Mb)), U, U),
+     \o (IF Has(ev, "Ja") THEN << JItemB(ev, "Ja", DM(ev.Ja), AdjMat(g, MInv(Mb)), U, U, AdjAbs(g, MInv(Mb))),
                                   JItem(ev, "Jb", DM(ev.Jb), MId(DoF(g)), U, U) >> ELSE <<>>)
 
 InverseItems(ev) ==
@@ -124,7 +138,7 @@ InverseItems(ev) ==
       Ma == M(g, a)  P == MInv(Ma)
       U == UnitT(g, FMax(O, LinCoeffMax(g, a)))
   IN << GroupItem(ev, "r", g, r, P, MMul(MMul(AbsR(g, P), AbsR(g, Ma)), AbsR(g, P)), Dev(g, a)) >>
-     \o (IF Has(ev, "Ja") THEN << JItem(ev, "Ja", DM(ev.Ja), MNeg(AdjMat(g, Ma)), U, U) >> ELSE <<>>)
+     \o (IF Has(ev, "Ja") THEN << JItemB(ev, "Ja", DM(ev.Ja), MNeg(AdjMat(g, Ma)), U, U, AdjAbs(g, Ma)) >> ELSE <<>>)
 
 ActItems(ev) ==
   LET g == ev.g  a == DV(ev.a)  p == DV(ev.pt)  v == DV(ev.rv)
@@ -214,8 +228,8 @@ RPlusItems(ev, left) ==
      \o (IF Has(ev, "Ja")
          THEN IF left
               THEN << JItem(ev, "Ja", DM(ev.Ja), MId(DoF(g)), U, U),
-                      JItem(ev, "Jt", DM(ev.Jt), MMul(AdjMat(g, MInv(Ma)), Jr), U, U) >>
-              ELSE << JItem(ev, "Ja", DM(ev.Ja), AdjMat(g, MInv(E)), U, U),
+                      JItemB(ev, "Jt", DM(ev.Jt), MMul(AdjMat(g, MInv(Ma)), Jr), U, U, MMul(AdjAbs(g, MInv(Ma)), MAbs(Jr))) >>
+              ELSE << JItemB(ev, "Ja", DM(ev.Ja), AdjMat(g, MInv(E)), U, U, AdjAbs(g, MInv(E))),
                       JItem(ev, "Jt", DM(ev.Jt), Jr, U, U) >>
          ELSE <<>>)
 
@@ -231,7 +245,8 @@ MinusItems(ev, left) ==
   IN IsLogItems(ev, g, X, S, tau, FAdd(Dev(g, a), Dev(g, b)))
      \o (IF Has(ev, "Ja")
          THEN IF left
-              THEN << JItem(ev, "Ja", DM(ev.Ja), JaL, U, U), JItem(ev, "Jb", DM(ev.Jb), MNeg(JaL), U, U) >>
+              THEN << JItemB(ev, "Ja", DM(ev.Ja), JaL, U, U, MMul(MAbs(Jri), AdjAbs(g, Mb))),
+                      JItemB(ev, "Jb", DM(ev.Jb), MNeg(JaL), U, U, MMul(MAbs(Jri), AdjAbs(g, Mb))) >>
               ELSE << JItem(ev, "Ja", DM(ev.Ja), Jri, U, U),
                       JItem(ev, "Jb", DM(ev.Jb), MNeg(MInv(JlOf(g, tau))), U, U) >>
          ELSE <<>>)
@@ -243,7 +258,7 @@ BetweenItems(ev) ==
       U == UnitT(g, FMax(O, FMax(LinCoeffMax(g, a), LinCoeffMax(g, b))))
   IN << GroupItem(ev, "r", g, r, P, MMul(MMul(MMul(AbsR(g, Mai), AbsR(g, Ma)), AbsR(g, Mai)), AbsR(g, Mb)),
                   FAdd(Dev(g, a), Dev(g, b))) >>
-     \o (IF Has(ev, "Ja") THEN << JItem(ev, "Ja", DM(ev.Ja), MNeg(AdjMat(g, MInv(P))), U, U),
+     \o (IF Has(ev, "Ja") THEN << JItemB(ev, "Ja", DM(ev.Ja), MNeg(AdjMat(g, MInv(P))), U, U, AdjAbs(g, MInv(P))),
                                   JItem(ev, "Jb", DM(ev.Jb), MId(DoF(g)), U, U) >> ELSE <<>>)
 
 TPlusItems(ev) ==
@@ -264,7 +279,7 @@ JacsItems(ev) ==
 
 AdjItems(ev) ==
   LET g == ev.g  a == DV(ev.a)  U == UnitT(g, FMax(O, LinCoeffMax(g, a)))
-  IN << JItem(ev, "J", DM(ev.J), AdjMat(g, M(g, a)), U, U) >>
+  IN << JItemB(ev, "J", DM(ev.J), AdjMat(g, M(g, a)), U, U, AdjAbs(g, M(g, a))) >>
 
 \* Adj(exp t) = exp(ad_t) = Jl Jr^-1
 AdjExpItems(ev) ==
@@ -288,7 +303,7 @@ AlgebraItems(ev) ==
         Item("br", VRatio(DV(ev.br), BracketV(g, a, b), [i \in 1..n |-> FAdd(FMul(wp, FMulInt(FMul(s1, s2), 8)), FloorOf(ev))])),
         Item("inner", VRatio(<<D(ev.inner)>>, <<inner>>, <<FAdd(FMul(wp, FMulInt(FMul(s1, s2), 64)), FloorOf(ev))>>)),
         Item("swn", VRatio(<<D(ev.swn)>>, <<sq>>, <<FAdd(FMul(wp, FMulInt(FMul(s1, s1), 64)), FloorOf(ev))>>)),
-        Item("wn", VRatio(<<FMul(D(ev.wn), D(ev.wn))>>, <<sq>>, <<FAdd(FMul(FMax(wp, FPow2(-50)), FMulInt(FMul(s1, s1), 64)), FloorOf(ev))>>)),
+        Item("wn", VRatio(<<FMul(D(ev.wn), D(ev.wn))>>, <<sq>>, <<FAdd(FMul(WPOf(ev), FMulInt(FMul(s1, s1), 64)), FloorOf(ev))>>)),
         Item("W", MRatioMilli(DM(ev.W), W, tm(n, n, Z))) >>
 
 \* Generator(i): documented basis matrix for 0 <= i < DoF, invalid_argument otherwise
